@@ -430,6 +430,10 @@ func (fc *funcContext) translateExpr(expr ast.Expr) *expression {
 							// An arithmetic shift by the operand width or more yields the sign: 0 or -1.
 							return fc.fixNumber(fc.formatExpr("%e >> 31", e.X), basic)
 						}
+						if _, isIdent := astutil.RemoveParens(e.X).(*ast.Ident); !isIdent && fc.pkgCtx.Types[e.X].Value == nil {
+							// The operand is still evaluated for its side effects and panics.
+							return fc.formatExpr("(%e, 0)", e.X)
+						}
 						return fc.formatExpr("0")
 					}
 					return fc.fixNumber(fc.formatExpr("%e %s %s", e.X, op, strconv.FormatUint(i, 10)), basic)
